@@ -35,9 +35,15 @@ import (
 	authtypes "github.com/cosmos/cosmos-sdk/x/auth/types"
 	banktypes "github.com/cosmos/cosmos-sdk/x/bank/types"
 	"github.com/cosmos/cosmos-sdk/x/feegrant"
+	sdkvesting "github.com/cosmos/cosmos-sdk/x/auth/vesting/types"
+	"github.com/cosmos/gogoproto/proto"
+	"github.com/ethereum/go-ethereum/common"
+	ethcrypto "github.com/ethereum/go-ethereum/crypto"
+	"time"
 
 	"github.com/haqq-network/haqq/utils"
 	evmtypes "github.com/haqq-network/haqq/x/evm/types"
+	vestingtypes "github.com/haqq-network/haqq/x/vesting/types"
 )
 
 func init() { register("signonce", signonceMain) }
@@ -64,15 +70,18 @@ type snTxRec struct {
 }
 
 type snPart struct {
+	ID     string `json:"id,omitempty"`
 	Signer string `json:"signer"`
 	Nonce  uint64 `json:"nonce"`
 	Amount string `json:"amount"`
 }
 
 type snStep struct {
-	Ev   string   `json:"ev"`
-	Mode string   `json:"mode,omitempty"`
-	Tx   *snTxRec `json:"tx,omitempty"`
+	Ev     string   `json:"ev"`
+	Mode   string   `json:"mode,omitempty"`
+	Tx     *snTxRec `json:"tx,omitempty"`
+	Kind   string   `json:"kind,omitempty"`   // event: convert | merge | funder | clawback | back
+	Target string   `json:"target,omitempty"` // event: the account whose object is re-written
 }
 
 type snCase struct {
@@ -99,6 +108,8 @@ type snEnv struct {
 	w     *World
 	rnd   *rand.Rand
 	built map[string][]byte // order part: id -> signed bytes
+	// contracts of the matrix scenario: a call to reverter reverts, a call to burner never ends
+	reverter, burner common.Address
 	tw    *TraceWriter
 	scn   int
 }
@@ -192,14 +203,16 @@ func (d *snEnv) submit(mode, role string, tx *snTxRec, c snCase, bz []byte) uint
 	pre := d.state()
 	var code uint32
 	var codespace, lg string
+	vmErrs := []string{}
 	if mode == "check" {
 		r := d.n.App.CheckTx(abci.RequestCheckTx{Tx: bz, Type: abci.CheckTxType_New})
 		code, codespace, lg = r.Code, r.Codespace, r.Log
 	} else {
 		r := d.n.Deliver(bz)
 		code, codespace, lg = r.Code, r.Codespace, r.Log
+		vmErrs = snVmErrors(r.Data)
 	}
-	d.tw.Emit(M{"ev": "submit", "scn": d.scn, "mode": mode, "role": role, "tx": tx,
+	d.tw.Emit(M{"ev": "submit", "scn": d.scn, "mode": mode, "role": role, "tx": tx, "vmErrors": vmErrs,
 		"case": M{"route": c.Route, "field": c.Field, "mut": c.Mut}, "code": int(code), "codespace": codespace,
 		"ok": code == 0, "err": snShort(lg), "pre": pre, "post": d.state(), "bytes": len(bz)})
 	return code
@@ -226,6 +239,105 @@ func (d *snEnv) setup(what string, signer string, msgs ...sdk.Msg) error {
 	if r.Code != 0 {
 		return fmt.Errorf("setup %s failed: %s", what, r.Log)
 	}
+	return nil
+}
+
+// deploy creates a contract with the given runtime code through a real Ethereum transaction.
+func (d *snEnv) deploy(by string, runtimeCode []byte) (common.Address, error) {
+	k := d.key(by)
+	l := byte(len(runtimeCode))
+	initCode := append([]byte{0x60, l, 0x60, 0x0c, 0x60, 0x00, 0x39, 0x60, l, 0x60, 0x00, 0xf3}, runtimeCode...)
+	nonce := d.n.App.EvmKeeper.GetNonce(d.n.Ctx(), ethAddr(k))
+	bz, _, err := d.n.EthTxFor(k, nil, big.NewInt(0), 300000, initCode)
+	if err != nil {
+		return common.Address{}, err
+	}
+	r := d.n.Deliver(bz)
+	addr := ethcrypto.CreateAddress(ethAddr(k), nonce)
+	ok := false
+	if acct := d.n.App.EvmKeeper.GetAccountWithoutBalance(d.n.Ctx(), addr); r.Code == 0 && acct != nil {
+		ok = len(d.n.App.EvmKeeper.GetCode(d.n.Ctx(), common.BytesToHash(acct.CodeHash))) == len(runtimeCode)
+	}
+	d.tw.Emit(M{"ev": "setup", "scn": d.scn, "what": "deploy:" + addr.Hex(), "ok": ok, "post": d.state()})
+	if !ok {
+		return addr, fmt.Errorf("deployment failed: %s", r.Log)
+	}
+	return addr, nil
+}
+
+// snVmErrors extracts the per-message VM error of an Ethereum transaction's response.
+func snVmErrors(data []byte) []string {
+	out := []string{}
+	var td sdk.TxMsgData
+	if len(data) == 0 || proto.Unmarshal(data, &td) != nil {
+		return out
+	}
+	for _, a := range td.MsgResponses {
+		var r evmtypes.MsgEthereumTxResponse
+		if a != nil && proto.Unmarshal(a.Value, &r) == nil && a.TypeUrl == "/"+proto.MessageName(&r) {
+			out = append(out, r.VmError)
+		}
+	}
+	return out
+}
+
+func (d *snEnv) nameOf(addr string) string {
+	for _, n := range []string{"g", "v", "s1", "s2", "r", "x"} {
+		if d.key(n).Addr.String() == addr {
+			return n
+		}
+	}
+	return ""
+}
+
+// event: somebody re-writes the account object of target through x/vesting (the account's own
+// signed transactions are not involved, except for "back", which the account itself signs).
+// The event is attempted whatever the state; a failed event is logged as such.
+func (d *snEnv) event(kind, target string) error {
+	pre := d.state()
+	t := d.key(target)
+	funder := "g"
+	if va, ok := d.n.App.AccountKeeper.GetAccount(d.n.Ctx(), t.Addr).(*vestingtypes.ClawbackVestingAccount); ok {
+		if n := d.nameOf(va.FunderAddress); n != "" {
+			funder = n
+		}
+	}
+	by := funder
+	amt := sdk.NewCoins(coin("1000"))
+	// schedules: already over (so that the account can be converted back) or far in the future
+	start, length := d.n.Header.Time.Add(-100*time.Second), int64(1)
+	if (d.n.Header.Height+int64(len(kind)))%2 == 0 {
+		start, length = d.n.Header.Time, 100000
+	}
+	periods := sdkvesting.Periods{{Length: length, Amount: amt}}
+	var msg sdk.Msg
+	switch kind {
+	case "convert":
+		msg = vestingtypes.NewMsgConvertIntoVestingAccount(d.key(by).Addr, t.Addr, start, periods, periods, false, false, nil)
+	case "merge":
+		msg = vestingtypes.NewMsgConvertIntoVestingAccount(d.key(by).Addr, t.Addr, start, periods, periods, true, false, nil)
+	case "funder":
+		nf := "v"
+		if funder == "v" {
+			nf = "g"
+		}
+		msg = vestingtypes.NewMsgUpdateVestingFunder(d.key(by).Addr, d.key(nf).Addr, t.Addr)
+	case "clawback":
+		msg = vestingtypes.NewMsgClawback(d.key(by).Addr, t.Addr, d.key(by).Addr)
+	case "back":
+		by = target
+		msg = vestingtypes.NewMsgConvertVestingAccount(t.Addr)
+	default:
+		return fmt.Errorf("unknown event %q", kind)
+	}
+	bz, err := d.n.CosmosTxFor(d.key(by), 600000, big.NewInt(2_000_000_000), msg)
+	if err != nil {
+		return err
+	}
+	r := d.n.Deliver(bz)
+	_, isVesting := d.n.App.AccountKeeper.GetAccount(d.n.Ctx(), t.Addr).(*vestingtypes.ClawbackVestingAccount)
+	d.tw.Emit(M{"ev": "event", "scn": d.scn, "kind": kind, "target": target, "by": by, "ok": r.Code == 0, "err": snShort(r.Log),
+		"vesting": isVesting, "pre": pre, "post": d.state()})
 	return nil
 }
 
@@ -345,6 +457,10 @@ func (d *snEnv) runOrder(src string, steps []snStep) error {
 		switch st.Ev {
 		case "commit":
 			d.commit()
+		case "event":
+			if err := d.event(st.Kind, st.Target); err != nil {
+				return err
+			}
 		case "submit":
 			t := *st.Tx
 			t.Rcpt = "r"
@@ -368,6 +484,7 @@ func (d *snEnv) runOrder(src string, steps []snStep) error {
 func snRandomOrder(r *rand.Rand, n int) []snStep {
 	routes := []string{"eth-legacy", "eth-accesslist", "eth-dynamicfee", "cosmos-direct", "cosmos-amino-json", "eip712", "eip712-direct"}
 	seq := map[string]uint64{"s1": 0, "s2": 0}
+	vesting := map[string]bool{}
 	var steps []snStep
 	var earlier []snTxRec
 	for i := 0; i < n; i++ {
@@ -375,8 +492,21 @@ func snRandomOrder(r *rand.Rand, n int) []snStep {
 			steps = append(steps, snStep{Ev: "commit"})
 			continue
 		}
+		if i > 2 && r.Intn(7) == 0 {
+			a := []string{"s1", "s2"}[r.Intn(2)]
+			kind := "convert"
+			if vesting[a] {
+				kind = []string{"merge", "funder", "clawback", "back", "back"}[r.Intn(5)]
+			}
+			vesting[a] = kind != "back"
+			if kind == "back" {
+				seq[a]++
+			}
+			steps = append(steps, snStep{Ev: "event", Kind: kind, Target: a})
+			continue
+		}
 		var t snTxRec
-		if len(earlier) > 0 && r.Intn(4) == 0 {
+		if len(earlier) > 0 && r.Intn(3) == 0 {
 			t = earlier[r.Intn(len(earlier))]
 		} else {
 			a := []string{"s1", "s2"}[r.Intn(2)]
@@ -447,6 +577,14 @@ func (d *snEnv) runMatrix(cases []snCase, rep int) error {
 		if err := d.filler(s); err != nil {
 			return err
 		}
+	}
+	// x deploys the two contracts the VM-failure batches call
+	var err error
+	if d.reverter, err = d.deploy("x", []byte{0x60, 0x00, 0x60, 0x00, 0xfd}); err != nil { // PUSH1 0 PUSH1 0 REVERT
+		return err
+	}
+	if d.burner, err = d.deploy("x", []byte{0x5b, 0x60, 0x00, 0x56}); err != nil { // JUMPDEST PUSH1 0 JUMP
+		return err
 	}
 	d.commit()
 	for i, c := range cases {
